@@ -399,35 +399,33 @@ class Expression(object):
 
         """
 
-        # If the attribute value is not None, then simply return it.
-        # Otherwise, compute it and return it.
-        if self._value is None:
-            # If leaf function value, the PEP would have filled the attribute after solving the problem.
-            if self._is_leaf:
+        # If leaf function value, the PEP would have filled the attribute after solving the problem.
+        if self._is_leaf:
+            if self._value is None:
                 raise ValueError("The PEP must be solved to evaluate Expressions!")
-            # If linear combination,
-            # combine the values of the leaf expressions,
-            # and store the result before returning it.
-            else:
-                value = 0
-                for key, weight in self.decomposition_dict.items():
-                    # Distinguish 3 cases: function values, inner products, and constant values
-                    if type(key) == Expression:
-                        assert key.get_is_leaf()
-                        value += weight * key.eval()
-                    elif type(key) == tuple:
-                        point1, point2 = key
-                        assert point1.get_is_leaf()
-                        assert point2.get_is_leaf()
-                        value += weight * np.dot(point1.eval(), point2.eval())
-                    elif key == 1:
-                        value += weight
-                    # Raise Exception out of those 3 cases
-                    else:
-                        raise TypeError("Expressions are made of function values, inner products and constants only!"
-                                        "Got {}".format(type(key)))
-                # Store the value
-                self._value = value
+        # If linear combination,
+        # combine the values of the leaf expressions (they change at each solve: never reuse an old result),
+        # and store the result before returning it.
+        else:
+            value = 0
+            for key, weight in self.decomposition_dict.items():
+                # Distinguish 3 cases: function values, inner products, and constant values
+                if type(key) == Expression:
+                    assert key.get_is_leaf()
+                    value += weight * key.eval()
+                elif type(key) == tuple:
+                    point1, point2 = key
+                    assert point1.get_is_leaf()
+                    assert point2.get_is_leaf()
+                    value += weight * np.dot(point1.eval(), point2.eval())
+                elif key == 1:
+                    value += weight
+                # Raise Exception out of those 3 cases
+                else:
+                    raise TypeError("Expressions are made of function values, inner products and constants only!"
+                                    "Got {}".format(type(key)))
+            # Store the value
+            self._value = value
 
         # Return the value
         return self._value
